@@ -383,7 +383,10 @@ void session_interface::save()
 	set_session_cookie(cookie_age(),temp_cookie_);
 	temp_cookie_.clear();
 
-	update_exposed(force_update);	
+	// the session cookie has just been given a new lifetime; in "renew" mode the exposed-value cookies
+	// must get the same lifetime, otherwise the browser drops them while the session is still alive
+	// (in "fixed" mode the lifetime is unchanged, in "browser" mode there is none)
+	update_exposed(force_update || how_==renew);
 	saved_=true;
 }
 
